@@ -253,6 +253,9 @@ func c04Prop(t *testing.T, k *verifkit.Kit) func(c c04Case) error {
 		if c.Sc.Cfg.LifeS == 0 {
 			cls = append(cls, "lifetime-0")
 		}
+		if len(c.Sc.Extra) >= 64 {
+			cls = append(cls, "65-or-more-interfaces")
+		}
 		k.Record(c, flips >= 1 && gensAfterFlip >= 1 && len(paths) >= 2, cls...)
 		return nil
 	}
@@ -265,7 +268,12 @@ func c04Gen(t *rapid.T) c04Case {
 	cfg.RA.Opts = append(cfg.RA.Opts, vOpt{Kind: "mtu", MTU: 1500}, vOpt{Kind: "rdnss", LifeS: 600, Servers: []string{"2001:db8::53"}})
 	cfg.RA.M = rapid.Bool().Draw(t, "m")
 	sc := advScenario{Cfg: cfg, Fwd0: rapid.Bool().Draw(t, "fwd0"), Terminate: rapid.IntRange(0, 3).Draw(t, "term") != 0}
-	for i, n := 0, rapid.IntRange(0, 2).Draw(t, "nextra"); i < n; i++ {
+	nextra := rapid.IntRange(0, 2).Draw(t, "nextra")
+	if rapid.IntRange(0, 7).Draw(t, "manyifaces") == 0 {
+		// many configured interfaces: the metrics and the debug API walk all of them
+		nextra = rapid.SampledFrom([]int{7, 8, 15, 16, 31, 32, 63, 64, 65, 100}).Draw(t, "nextramany")
+	}
+	for i, n := 0, nextra; i < n; i++ {
 		x := c06BaseCfg(600)
 		x.MinNS = 200 * s
 		x.LifeS = rapid.SampledFrom([]int64{0, 1800, 600}).Draw(t, "xlife")
@@ -284,7 +292,11 @@ func c04Gen(t *rapid.T) c04Case {
 			sc.Events = append(sc.Events, advEvent{AtNS: at, Kind: "msg", Msg: "ra", From: "fe80::99", RA: &vRA{Hop: 32, LifeS: 1800}})
 		case 5:
 			if len(sc.Extra) > 0 {
-				c.Flips = append(c.Flips, advEvent{AtNS: at, Kind: "flip", From: fmt.Sprintf("eth%d", rapid.IntRange(1, len(sc.Extra)).Draw(t, "xi")), Value: rapid.Bool().Draw(t, "xv")})
+				xi := rapid.IntRange(1, len(sc.Extra)).Draw(t, "xi")
+				if rapid.Bool().Draw(t, "xilast") {
+					xi = len(sc.Extra) - rapid.IntRange(0, min(3, len(sc.Extra)-1)).Draw(t, "xiback") // rapid favours small values: also the last interfaces
+				}
+				c.Flips = append(c.Flips, advEvent{AtNS: at, Kind: "flip", From: fmt.Sprintf("eth%d", xi), Value: rapid.Bool().Draw(t, "xv")})
 			}
 		default:
 			sc.Events = append(sc.Events, advEvent{AtNS: at, Kind: "scrape"})
